@@ -43,6 +43,9 @@ def _pids_of(k, name, before=None):
 
 
 def execute(case):
+    if "token" in case:
+        from vfw import live
+        return live.execute_live(case, ('C02:live',))
     h = History(case)
     w = h.world
     k = w.kernel
@@ -440,11 +443,22 @@ def plan(tier, seed):
     n = 1200 if tier == "quick" else 12000
     specs += [{"kind": "random", "seed": seed * 100 + i, "n": n}
               for i in range(8)]
+    specs += [{"kind": "live", "seed": seed * 100 + 60 + i,
+               "n": 3 if tier == 'quick' else 40} for i in range(2)]
     return specs
 
 
 def run_shard(spec):
     stats = Stats()
+    if spec.get("kind") == 'live':
+        from vfw import live
+        found = hyp_search(live.strategy(always_restart=True), execute,
+                           stats, spec["seed"], spec["n"],
+                           known=spec["known"], max_rounds=2, shrink=False)
+        res = stats.as_dict()
+        res["violations"] = found
+        res["inconclusive"] = stats.counters.get('live-inconclusive', 0)
+        return res
     if spec["kind"] == 'enum':
         found = _enumerate(spec, stats)
         res = stats.as_dict()
